@@ -25,6 +25,7 @@ RULE = ("small joint degree sequences whose placement space can be enumerated: k
         "statistical mode draws 4000 (quick) / 20000 (thorough) seeded generations (fast, custom, and network at edge-set level); "
         "non-trivial = >= 3 distinct outcomes under the oracle; distinct = SHA-1 of (configuration, jds, mode)")
 RULE += ("; rounds k-l added: " + 'scale cases: one column with 2 100..12 000 stubs, 21 block-pair counts against uniform matching (chi-square on 20 df, violation above 150)')
+RULE += '; round n: two-topology cases with identical degree columns (60% of those with equal stub totals)'
 ASSUMPTIONS = ["exact part assumes randomness enters through one random.shuffle per stub list (verified per run from the tap's log); "
                "if that pattern is not observed the exact part is skipped for that case and the statistical part decides",
                "chi-square two-stage protocol (p>=1e-4 held; escalate 4x; p<1e-6 violated) + support check"]
@@ -179,6 +180,12 @@ def make_small(rng, limit, force_fast_two=False):
                     jds[rng.choice(live)][c] += 1
         if not ok:
             continue
+        if len(cols) >= 2 and n_c[0] == n_c[1] and rng.random() < 0.6:
+            # two topologies with IDENTICAL degree columns (every vertex has the same degree in both, e.g. [(1,1)]*4): their placements are
+            # still independent of each other
+            for row in jds:
+                row[1] = row[0]
+            cfg["equal_columns"] = True
         return cfg, [tuple(x) for x in jds], n_c
     raise RuntimeError("could not build a small configuration")
 
